@@ -53,7 +53,7 @@ def upickBare (ts : Types) (a : Atlas) (id : Nat) : UMach :=
       | .arr n e => .array n e
       | .map k v => .map k v
       | .struct _ => .errThunk
-      | .iface m => if m then .errThunk else .wildcard
+      | .iface _ => .wildcard
       | .ptr _ => .panic
       | .other => .errThunk
 
@@ -190,7 +190,7 @@ mutual
       | .errThunk => .err 0
       | .panic => .panic 0
       | .prim => (match storePrim (ts.get id) t with | some v => .ok v rest 1 | none => .err 0)
-      | .wildcard => unmWild ts a trs it fuel t rest
+      | .wildcard => unmWild ts a trs it fuel (match ts.get id with | .iface m => m | _ => false) t rest
       | .slice e =>
         (match t.body with
          | .null => .ok (.slice none) rest 1
@@ -268,18 +268,22 @@ mutual
                | _ => .err 1))
          | _ => .err 0)
   /-- the wildcard machine (untyped slot): first token decides -/
-  def unmWild (ts : Types) (a : Atlas) (trs : Trs) (it : IfaceTys) : Nat → Tok → List Tok → URes
-    | 0, _, _ => .panic 0
-    | fuel+1, t, rest =>
+  def unmWild (ts : Types) (a : Atlas) (trs : Trs) (it : IfaceTys) : Nat → Bool → Tok → List Tok → URes
+    | 0, _, _, _ => .panic 0
+    | fuel+1, methods, t, rest =>
       match t.tag with
       | some g =>
         (match a.getByTag g with
          | none => .err 0
          | some e =>
+           -- into an interface type with methods the registered type would have to implement it; the type
+           -- descriptors do not carry method sets, so the model rejects (no zoo atlas reaches this case)
+           if methods then .err 0 else
            (match unmBare ts a trs it fuel e.ty (upickBare ts a e.ty) (zeroVal ts 64 e.ty) (t :: rest) with
             | .ok v r u => .ok (.iface (some (e.ty, v))) r u
             | x => x))
       | none =>
+        if methods && (match t.body with | .null | .mapClose | .arrClose => false | _ => true) then .err 0 else
         match t.body with
         | .mapOpen _ =>
           (match unmBare ts a trs it fuel it.mapSI (.map it.str it.iface) (.map (some [])) (t :: rest) with
@@ -350,7 +354,7 @@ mutual
              (match rest with
               | [] => .more 1
               | v :: rest2 =>
-                (match unmWild ts a trs it fuel v rest2 with
+                (match unmWild ts a trs it fuel false v rest2 with
                  | .ok _ r u => (unmStruct ts a trs it fuel id fields expectLen (idx + 1) cur r).shift (u + 1)
                  | x => x.shift 1))
            else
